@@ -52,3 +52,8 @@ package utils
 //@   ensures forall(k, 0, len(values), result >= values[k]) && exists(k, 0, len(values), result == values[k])
 //@   loop 1 invariant rangeindex < len(values) && forall(k, 0, rangeindex + 1, max >= values[k]) && exists(k, 0, len(values), max == values[k])
 //@   loop 1 decreases len(values) - rangeindex
+
+//@ func FindBaseUrl
+//@   props C01
+//@   modifies nothing
+//@   trusted "frame only: searches the DOM for a <base> element"
